@@ -3,6 +3,7 @@ import NanoVerif.Proofs.Wire
 import NanoVerif.Proofs.TensorHash
 import NanoVerif.Proofs.CodecHashFold
 import NanoVerif.Proofs.CodecStream
+import NanoVerif.Proofs.CodecLayoutGen
 /-!
   C15 — serialization round-trips models; truncated / corrupted streams are rejected.
 
@@ -69,6 +70,16 @@ import NanoVerif.Proofs.CodecStream
   | generator_t, function_t, dataset_t, cluster_t, ml::params_t / | outside    | have no read/write (nothing to serialise)               |
   |   result_t, early-stopping state, mhash                       |            |                                                         |
   | fit / predict of the models                                   | outside    | observed: predictions of the re-read model bit-identical|
+
+  FIELD LAYOUTS (round 5) — beside `modelled`, the layout of every read / write MEMBER FUNCTION of the table above (configurable,
+  feature, learner, linear, gboost, single, stump, hinge, table, dtree, dtree_node_t) is `translated`: `tools/props/c15_translate.py`
+  re-reads, on every run, the base-class call and the ordered `::nano::read / read_cast<T> / write(…, static_cast<T>(…))` items of
+  both functions, the declared type of every member from the class header and the 16 `using` aliases those types go through, into
+  `Gen/CodecLayout.lean`; `Proofs/CodecLayoutGen.lean` (namespace `Codec.Layout`): `model_read_layout_is_generated`,
+  `model_write_layout_is_generated`, `model_typedefs_are_generated`, `read_layout_eq_write_layout` (each class reads exactly what it
+  writes: the premise of stating ONE codec per class), `model_wire_is_generated` (field by field, the on-the-wire kinds are the `seq`
+  structure of the codecs of `Model/Wire.lean`), `layout_bases_closed`. `parameter_t::read / write` (a switch over the variant) is
+  not a flat layout and stays `modelled`.
 -/
 namespace NanoVerif.Codec
 open NanoVerif.Gen.CodecConsts
